@@ -53,7 +53,6 @@ Lemma g_mhz_clean : clean_token G_MHZ. Proof. apply clean_literal; [discriminate
 
 Section WithOracle.
   Variable fl : list Z -> fres.
-  Hypothesis fl_total : forall t, fl t <> FMissing.    (* float() returns or raises ValueError *)
 
   (* ---------------------------------------------------------------- writes *)
   Lemma g_write_power_exec d tok : clean_token tok ->
@@ -258,7 +257,7 @@ Section WithOracle.
   Lemma g_reply_wf d l d' r : g_exec fl d l = (d', OReply r) -> g_reply_wfb r = true.
   Proof.
     intros H. destruct (g_cmds_reply _ _ _ _ _ (Forall_nil _) H) as (items & Hne & -> & Hok).
-    unfold g_reply_wfb. rewrite rev_app_distr. change (rev [LF]) with [10]. cbn [app]. cbv iota beta. rewrite rev_involutive.
+    unfold g_reply_wfb. rewrite rev_app_distr. cbn [rev app]. rewrite Z.eqb_refl. cbn [andb]. rewrite rev_involutive.
     rewrite split_join_semi; [| exact Hne |].
     - apply forallb_forall. rewrite Forall_forall in Hok. exact Hok.
     - eapply Forall_impl; [|exact Hok]. intros i Hi. apply g_item_ok_shape. exact Hi.
@@ -267,8 +266,8 @@ Section WithOracle.
   Lemma g_reply_wf_shape r : g_reply_wfb r = true -> bytes r /\ exists body, r = body ++ [LF].
   Proof.
     unfold g_reply_wfb. destruct (rev r) as [|x body] eqn:E; [discriminate|].
-    destruct (Z.eq_dec x 10) as [->|Hx]; [|destruct x as [|[[[[|]|]|]|]|]; try discriminate; lia].
-    intros H. assert (Er : r = rev body ++ [10]).
+    intros H. apply andb_true_iff in H as [Hx H]. apply Z.eqb_eq in Hx. subst x. unfold LF in *.
+    assert (Er : r = rev body ++ [10]).
     { rewrite <- (rev_involutive r), E. reflexivity. }
     split; [|exists (rev body); exact Er]. rewrite Er. apply Forall_app. split; [|repeat constructor; unfold byte; lia].
     rewrite forallb_forall in H. apply (split_by_bytes_inv (Z.eqb SEMI)).
